@@ -61,7 +61,7 @@ Failing(h, e, fl) ==
           [errClass  |-> (e.kind = "err") = R.err,
            recvState |-> recv = 0 \/ ~R.j \/ obs[recv] = R.o,
            created   |-> IF R.err \/ e.kind = "err" THEN n = Len(h) ELSE newObs = R.new,
-           ret       |-> R.err \/ e.kind = "err" \/ RetOK(op, a, R.ret, e.ret),
+           ret       |-> R.err \/ e.kind = "err" \/ ~R.j \/ RetOK(op, a, R.ret, e.ret),
            frame |-> frame, views |-> (~R.j) \/ views, rect |-> (~R.j) \/ rect]
   IN {k \in DOMAIN checks : ~checks[k]}
 
